@@ -40,6 +40,9 @@ package server
 // C01: "The refMu must already be held when calling unload" and nobody holds a reference.
 //@ func (*runnerRef).unload
 //@   requires held(runner.refMu) && runner.refCount == 0
+// C15: llama/model/Options/gpus are read by holders of loadedMu alone (PsHandler, ...), so
+// they may only be written with both refMu and loadedMu held.
+//@   requires heldany(Scheduler.loadedMu)
 //@   modifies runner.expireTimer, runner.model, runner.llama, runner.Options, runner.gpus
 //@   ensures runner.llama == nil
 
@@ -50,6 +53,13 @@ package server
 //@   ghost-at entry : ghost_replies := 0
 //@   ghost-at send successCh : ghost_replies := ghost_replies + 1
 //@   assert-at return : (result ==> ghost_replies == 1) && (!result ==> ghost_replies == 0)
+// C02 (drain): reference balance: a reference is taken iff the runner is handed out, and
+// then exactly one finisher goroutine is started to give it back.
+//@   ghost-at entry : ghost_fin := 0
+//@   ghost-at after call sync.(*Mutex).Lock #1 : ghost_rc0 := runner.refCount
+//@   assume-at after call sync.(*Mutex).Lock #1 : runner.refCount < 9223372036854775807   -- range assumption: fewer than 2^63 concurrent references (uint counter does not wrap)
+//@   ghost-at call useLoadedRunner$1 : ghost_fin := ghost_fin + 1
+//@   assert-at return : (result ==> ghost_fin == 1 && runner.refCount == ghost_rc0 + 1) && (!result ==> ghost_fin == 0 && runner.refCount == ghost_rc0)
 
 //@ func (*Scheduler).load
 //@   ghost-at entry : ghost_replies := 0
@@ -58,14 +68,25 @@ package server
 //@   assert-at return : ghost_replies == 1
 
 //@ func (*Scheduler).load$1
-//@   requires held(runner.refMu) && runner.llama != nil
+//@   requires held(runner.refMu) && runner.llama != nil && runner.refCount == 1
 //@   ghost-at entry : ghost_replies := 0
 //@   ghost-at send errCh : ghost_replies := ghost_replies + 1
 //@   ghost-at send successCh : ghost_replies := ghost_replies + 1
 //@   assert-at send successCh : sent.llama != nil
 //@   assert-at return : ghost_replies == 1
+// C02 (drain): reference balance. The request's reference (refCount == 1 from load) is
+// either dropped here (failed load) or handed to exactly one finisher goroutine, which
+// posts the one finished event that drops it - never both, never neither.
+//@   ghost-at entry : ghost_fin := 0
+//@   ghost-at call load$1$1 : ghost_fin := ghost_fin + 1
+//@   assert-at return : ghost_fin <= 1 && runner.refCount == ghost_fin
 
+// C11: the loaded map (whose size is compared with the configured maximum, and which is
+// searched per model path) covers every live runner: an entry is deleted only after the
+// runner has been shut down (unload: llama == nil), inside the same critical section.
 //@ func (*Scheduler).processCompleted
+//@   assert-at call delete #1 : runner.llama == nil
+//@   assert-at call delete #1 : held(s.loadedMu)
 
 // C02: the caller of GetRunner is never blocked: the queue send sits in a select with
 // default, and the busy error goes to a fresh channel of capacity 1.
